@@ -34,6 +34,8 @@ class HistLearner:
         return self._pmf(context, actions)[actions.index(action)]
 
     def predict(self, context, actions):
+        from coba.primitives import is_batch
+        if is_batch(context) or is_batch(actions): raise TypeError("HistLearner does not take batches")   # SafeLearner falls back to per-row calls
         self.n += 1
         pmf = self._pmf(context, actions)
         if self.mode == "pmf":
@@ -45,6 +47,8 @@ class HistLearner:
         return out
 
     def learn(self, context, action, reward, probability, **kwargs):
+        from coba.primitives import is_batch
+        if is_batch(context) or is_batch(action): raise TypeError("HistLearner does not take batches")
         self.h = _crc(self.h, round(float(reward), 6), round(float(probability), 6) if probability is not None else None, repr(action)[:40], sorted(kwargs.items()))
         if self.info:      # the documented way for a learner to report diagnostics: process-global learning_info
             from coba.context import CobaContext
@@ -131,19 +135,22 @@ def build(shape, side=None, n_int=6, variant=0, where=None):
     """-> list of (env, learner, evaluator) triples realising the shape (fresh objects on every call)."""
     from coba.environments import Environments
     tr = [tuple(t) for t in shape["tr"]]; ch = list(shape["ch"]); fail = [tuple(f) for f in shape.get("fail", [])]
+    batched = set(shape.get("batch", []))       # environments delivered in batches of 2 (the same learner class then sees both kinds)
     ne = max(t[0] for t in tr) + 1; nl = max(t[1] for t in tr) + 1; nv = max(t[2] for t in tr) + 1
     envs = {}
     bycls = {}
     for e in range(ne):
         c = ch[e] if e < len(ch) else 0
         if c == 0:
-            envs[e] = Environments.from_linear_synthetic(n_int, n_actions=3, n_context_features=2, n_action_features=2, seed=11 + e + variant).shuffle(seed=e).params({"eid": e})[0]
+            ee = Environments.from_linear_synthetic(n_int, n_actions=3, n_context_features=2, n_action_features=2, seed=11 + e + variant).shuffle(seed=e).params({"eid": e})
+            envs[e] = (ee.batch(2) if e in batched else ee)[0]
         else:
             bycls.setdefault(c, []).append(e)
     for c, es in bycls.items():
         base = Environments.from_linear_synthetic(n_int, n_actions=3, n_context_features=2, n_action_features=2, seed=31 + c + variant).chunk()
         for e in es:
-            envs[e] = base.shuffle(seed=e).params({"eid": e})[0]
+            ee = base.shuffle(seed=e).params({"eid": e})
+            envs[e] = (ee.batch(2) if e in batched else ee)[0]
     lrns = {l: HistLearner(l, MODES[(l + variant) % len(MODES)], kw=((l + variant) % 2 == 1), info=((l + variant) % 2 == 0)) for l in range(nl)}
     vals = {v: VEval(v, RECORDS[(v + variant) % len(RECORDS)], fail=fail, side=side, where=(where or ("start" if v % 2 else "middle")), plain=(v % 2 == 1)) for v in range(nv)}
     return [(envs[e], lrns[l], vals[v]) for (e, l, v) in tr]
